@@ -3,6 +3,7 @@
 package zzverif
 
 import (
+	"runtime"
 	"time"
 	"context"
 	"crypto/ecdsa"
@@ -92,6 +93,37 @@ func Now() time.Time {
 }
 
 func Since(t time.Time) time.Duration { return Now().Sub(t) }
+
+// Settle lets every other goroutine run until it blocks or finishes (symbolic build: exactly that, cooperatively;
+// native build: a short sleep, repeated a few times to let chains of hand-offs complete).
+func Settle() {
+	for i := 0; i < 5; i++ {
+		runtime.Gosched()
+		time.Sleep(10 * time.Millisecond)
+	}
+}
+
+// MustNotBlock runs f; natively with a 3 s deadline, symbolically a blocked state inside f (no goroutine can run) is
+// reported as a violation "blocked".
+func MustNotBlock(f func()) {
+	done := make(chan struct{})
+	var pv interface{}
+	go func() {
+		defer func() { pv = recover(); close(done) }()
+		f()
+	}()
+	select {
+	case <-done:
+		if pv != nil {
+			panic(pv)
+		}
+	case <-time.After(3 * time.Second):
+		panic("VERIF-ASSERT blocked")
+	}
+}
+
+// Preemptive switches exploration of pre-emptions at channel/mutex operations on or off (symbolic build only).
+func Preemptive(on bool) {}
 
 func Len(name string, opts ...int) int {
 	load()
